@@ -406,8 +406,12 @@ package twig
 // of them is a key of the map (so MapIndex finds an entry)
 //@   requires[C05] uf_canIface(rv)
 //@   atcall[C05] sort.SliceStable forall k int :: 0 <= k && k < len(keys) ==> ufi_kind(keys[k]) != 0 && uf_canIface(keys[k])
-//@   ensures forall k int :: 0 <= k && k < len(ret) ==> ufi_kind(ret[k]) != 0 && uf_canIface(ret[k]) && uf_hasKey(rv, ret[k]) && ufI_typeOf(ret[k]) == ufI_typeKey(ufI_typeOf(rv)) && uf_rvComparable(ret[k])
+// (except a key that is not equal to itself, a NaN: MapKeys lists it, no lookup finds it)
+//@   ensures forall k int :: 0 <= k && k < len(ret) ==> ufi_kind(ret[k]) != 0 && uf_canIface(ret[k]) && (uf_keyEqualsItself(ret[k]) ==> uf_hasKey(rv, ret[k])) && ufI_typeOf(ret[k]) == ufI_typeKey(ufI_typeOf(rv)) && uf_rvComparable(ret[k])
 //@   ensures[C19] len(ret) == ufi_rvlen(rv)
+// the value under a key, nil for a key no lookup finds (C05: no Interface() of the zero Value)
+//@ func mapEntry props: C05
+//@   requires ufi_kind(rv) == 21 && uf_rvComparable(key)
 
 // ---------------------------------------------------------------- truthiness (C09, C19)
 // false, every numeric zero, "", nil, an empty list and an empty map are falsy; everything else is
